@@ -60,6 +60,14 @@ def binop(op, a, b, t):
                 if op in ('==', '!='):
                     return int(op == '!=')
         return None
+    # two addresses into the same array compare (and subtract) like their indices
+    if op in ('==', '!=', '<', '<=', '>', '>=', '-') and isinstance(a, tuple) and isinstance(b, tuple) and len(a) == 2 and len(b) == 2 and a[0] == '&' and b[0] == '&' \
+            and isinstance(a[1], str) and isinstance(b[1], str):
+        ma, mb = _IDX.match(a[1]), _IDX.match(b[1])
+        if ma and mb and ma.group(1) == mb.group(1):
+            a, b = int(ma.group(2)), int(mb.group(2))
+        elif op in ('<', '<=', '>', '>=', '-'):
+            return None
     # a descriptor / pid token compares like a small positive integer
     if op in ('==', '!=', '<', '<=', '>', '>='):
         if isinstance(a, tuple) and a and a[0] in ('fd', 'pid') and isinstance(b, int):
@@ -595,7 +603,10 @@ class Engine:
                 old = E.store.get(p, TOP) if p and self.trackable(p) else TOP
                 new = TOP
                 if p and self.trackable(p):
-                    if old is not TOP and (self.hooks.precise_arith(p) or self.bounded_counter(p)):
+                    # an address into an array steps exactly (bounded: beyond element 256 it becomes unknown)
+                    ptr_only = old is not TOP and len(old) > 0 and all(isinstance(e, tuple) and ptr_add(e, 0) is not None and
+                                                                       -2 <= int(_IDX.match(e[1]).group(2)) <= 256 for e in old)
+                    if old is not TOP and (self.hooks.precise_arith(p) or self.bounded_counter(p) or ptr_only):
                         d = 1 if '++' in op else -1
                         new = frozenset(wrap(e + d, x.type) if isinstance(e, int) else (lin_add(e, d) if is_lin(e) else (ptr_add(e, d) or e)) for e in old)
                     E.set(p, new)
